@@ -108,6 +108,34 @@ def pick_falsy(rng, c, candidates):
     c['falsy'] = sorted(d for d in cand if rng.random() < 0.6) if (cand and rng.random() < 0.35) else []
 
 
+DOWNSTREAM_EXC = {'IndexError': IndexError, 'KeyError': KeyError, 'ValueError': ValueError, 'RuntimeError': RuntimeError,
+                  'TypeError': TypeError, 'AttributeError': AttributeError, 'LookupError': LookupError}
+
+
+def _thrower_class():
+    """A user-written device with a bug of its own (a resequencing buffer indexed past its window, a lookup in a table of its own, a
+    pop from an empty list): it accepts the packet - the hand-over is recorded BEFORE anything else happens - and then fails with an
+    exception on the n-th packet it is handed, once.  Armed by the harness when the packets of the case begin (not during a warm-up)."""
+    Rec, _ = _classes()
+
+    class Thrower(Rec):
+        def __init__(self, dev, log, nth, exc, state):
+            Rec.__init__(self, dev, log)
+            self.nth, self.exc, self.state, self.count = nth, exc, state, 0
+
+        def put(self, packet):
+            self.log.append((self.dev, packet))
+            if not self.state['armed']:
+                return
+            self.count += 1
+            if self.count == self.nth:
+                x = DOWNSTREAM_EXC[self.exc](f'device {self.dev} failed inside its own put() on the packet number {self.nth} it was handed')
+                self.state['fired'].append((self.dev, packet, x))
+                raise x
+
+    return Thrower
+
+
 def N(x):
     return 'N' if x is None else str(x)
 
@@ -249,6 +277,79 @@ def gen_dispatch(rng, i):
         c['sets'] = sorted([j, 1 + j if rng.random() < 0.9 else 1] for j in range(max(n, 0)) if rng.random() < 0.7)
         c['pkts'] = [[p, rng.randint(0, 5), 0] for p in range(npk)]
     return c
+
+
+ASSUMPTIONS.append('downstream devices that raise (oracle-only cases, not replayed by the model, which has no failing device): in a separate batch of '
+                   'FlowDemux / FIBDemux / FairPacketSwitch cases one or two of the devices the rule leads to record the hand-over and then raise '
+                   'IndexError / KeyError / ValueError / RuntimeError / TypeError / AttributeError / LookupError on their n-th packet, once.  Demanded: every '
+                   'packet is handed to exactly the output the rule names, before, on and after the failing packet; whether the exception reaches the caller '
+                   'is not stated by the property and only recorded.  NOT generated (a finding on the unchanged code, reported): a FIBDemux output reached '
+                   'through the forwarding table that raises KeyError / IndexError / ValueError while a default output is set - the unchanged FIBDemux '
+                   'catches these three around the downstream put() as well and hands the packet to the default output too')
+
+
+def rule_devices(c, flow):
+    """the devices the property's rule names for a packet of `flow` in demux / switch case `c` (None where the statement is silent)"""
+    k = c['kind']
+    if k == 'flowdemux':
+        if flow < 0:
+            return None
+        return [c['outs'][flow]] if flow < len(c['outs']) else ([c['default']] if c['default'] is not None else [])
+    if k == 'fibdemux':
+        return demux_expect(c, flow, c['outs'], c['default'])
+    if k == 'fair':
+        return demux_expect(c, flow, list(range(c['nports'])), None)
+    return None
+
+
+def gen_raise_case(rng, i):
+    """A dispatch case (FlowDemux, FIBDemux, FairPacketSwitch - the devices that hand a packet over synchronously to a device of the user) in
+    which one or two of the devices that the rule leads packets to FAIL inside their own put(): on the n-th packet they are handed they
+    record the hand-over and raise (`c['raisers']` = [[device, n, exception name], ...]).  More packets than an ordinary case, so that
+    packets before, on and after the failing one are judged.  (SimplePacketSwitch hands over to its own Ports only, which call the
+    user's device later from their process: nothing downstream runs inside its put(); its routing is that of a FlowDemux with no default
+    output, which is generated here.)  Oracle-only: the model of the route driver has no failing devices."""
+    while True:
+        c = gen_dispatch(rng, i)
+        k = c['kind']
+        if k not in ('flowdemux', 'fibdemux', 'fair'):
+            continue
+        if k == 'fair' and c['server'] not in SERVERS:
+            continue
+        if k == 'flowdemux':
+            known = list(range(len(c['outs']))) + [len(c['outs'])]
+        else:
+            known = [f for f, _ in c['ends']] + [f for f, _ in (c['fib'] or [])]
+        if k == 'flowdemux' and rng.random() < 0.3:
+            c['default'] = rng.choice([200, 200, 100])        # FlowDemux with a default output: the "else" of its rule
+            c['falsy'] = [d for d in c.get('falsy') or [] if d != c['default']]      # (a default output is never a falsy object, see pick_falsy)
+        n0 = len(c['pkts'])
+        for p in range(n0, n0 + rng.randint(1, 6)):
+            c['pkts'].append([p, rng.choice(known) if (known and rng.random() < 0.85) else gen_flow(rng, known, 12, False), 0])
+        reach = collections.Counter()
+        for _, f, _ in c['pkts']:
+            for d in rule_devices(c, f) or []:
+                if k != 'fair' or d >= 300:          # behind a switch only the end devices are called from inside put()
+                    reach[d] += 1
+        if not reach:
+            continue
+        raisers = []
+        for d in rng.sample(sorted(reach), min(len(reach), rng.choice([1, 1, 1, 2]))):
+            nth = rng.randint(1, reach[d]) if rng.random() < 0.9 else reach[d] + 1
+            exc = rng.choice(['IndexError', 'IndexError', 'IndexError', 'KeyError', 'KeyError', 'ValueError', 'ValueError',
+                              'RuntimeError', 'TypeError', 'AttributeError', 'LookupError'])
+            if k == 'fibdemux' and c['default'] is not None and d in (c['outs'] or []) and exc in ('KeyError', 'IndexError', 'ValueError'):
+                # NOT generated - a finding on the UNCHANGED code, reported instead of silenced: FIBDemux.put wraps `self.outs[self._fib[f]].put(packet)`
+                # in `except (KeyError, IndexError, ValueError)`, so one of these three raised INSIDE the put() of the output the table names is
+                # taken for a failed lookup and the packet is handed to the default output as well (two outputs for one packet, error swallowed;
+                # e.g. FIBDemux(outs=[A], fib={0: 0}, default_out=D), A.put raising KeyError: a packet of flow 0 reaches A and D).  Just this
+                # combination is avoided; with no default output (error swallowed, one hand-over) and with every other exception it is generated.
+                exc = rng.choice(['RuntimeError', 'TypeError', 'AttributeError', 'LookupError'])
+            raisers.append([d, nth, exc])
+        c['raisers'] = sorted(raisers)
+        c['falsy'] = [d for d in c.get('falsy') or [] if d not in reach]
+        c['oracle_only'] = 'downstream devices that raise'
+        return c
 
 
 def pairs(l):
@@ -430,12 +531,34 @@ def run_dispatch(c, fails, hist):
         fc = _falsy_classes()
         hist[k + ':with-falsy-devices'] += 1
 
+    # downstream devices whose put() raises (oracle-only cases, see gen_raise_case): [[device id, n, exception name], ...]
+    throwers = {d: (nth, exc) for d, nth, exc in (c.get('raisers') or [])}
+    tstate = {'armed': False, 'fired': []}
+    Thrower = _thrower_class() if throwers else None
+
     def dev(d):
         if d is None:
             return None
         if d not in devs:
-            devs[d] = (fc['rec'][d % 2] if d in falsy else Rec)(d, log)
+            if d in throwers:
+                devs[d] = Thrower(d, log, throwers[d][0], throwers[d][1], tstate)
+            else:
+                devs[d] = (fc['rec'][d % 2] if d in falsy else Rec)(d, log)
         return devs[d]
+
+    def downstream(p, exc):
+        """-> (the exception the rule oracle has to judge, a note for the report).  The property's rule says where a packet is handed; it
+        does not say what the dispatching device does with an exception raised INSIDE the put() of the device the rule names: whether it
+        reaches the caller is left open (recorded as a histogram), so an exception is no failure of the rule when a downstream device
+        really failed on this very packet.  What stays demanded is the rule itself: handed to exactly the output it names - a
+        downstream failure is no reason to hand the packet to a second output as well (the hand-overs were logged before the raise)."""
+        mine = [(d, x) for d, q, x in tstate['fired'] if q is p]
+        if not mine:
+            return exc, ''
+        for d, x in mine:
+            hist[f'downstream-raise:{k}:{type(x).__name__}:' + ('reached-the-caller' if exc else 'swallowed')] += 1
+        who = ' and '.join(f'device {d} raised {type(x).__name__}' for d, x in mine)
+        return None, f' [{who} inside its own put() on this packet, after it had accepted it; the caller {"saw " + exc if exc else "saw no exception"}]'
 
     fnote = f' [devices {sorted(falsy)} are objects whose truth value is False: registered / attached is not the same as truthy]' if falsy else ''
 
@@ -450,6 +573,7 @@ def run_dispatch(c, fails, hist):
     pkts = [mk_packet(*p, idtype=idtype) for p in c['pkts']]
 
     def put_all(target, after=None):
+        tstate['armed'] = True
         for p in pkts:
             lines.append(f'P {p.packet_id}')
             del log[:]
@@ -490,9 +614,10 @@ def run_dispatch(c, fails, hist):
             exp = [c['outs'][f]] if f < len(c['outs']) else ([c['default']] if c['default'] is not None else [])
             hist['flowdemux:' + ('out' if f < len(c['outs']) else 'default' if c['default'] is not None else 'nowhere')] += 1
             got = [dv for dv, _ in entries]
+            exc, dnote = downstream(p, exc)
             if exc or got != exp or any(o is not p for _, o in entries):
-                fails.add(f'FlowDemux: packet of flow {f} went to {got}{" raising " + exc if exc else ""}, the rule says {exp}' + fnote,
-                          'flowdemux-rule', c, lines[-6:])
+                fails.add(f'FlowDemux: packet of flow {f} went to {got}{" raising " + exc if exc else ""}, the rule says {exp}' + fnote + dnote,
+                          'flowdemux-rule' + (':downstream-raise' if dnote else ''), c, lines[-6:])
         put_all(d, chk)
     elif k == 'fibdemux':
         kw = {}
@@ -534,9 +659,10 @@ def run_dispatch(c, fails, hist):
                 return
             hist['fibdemux:' + ('end' if p.flow_id in dict(map(tuple, c['ends'])) else 'table' if p.flow_id in dict(map(tuple, c['fib']))
                                 else 'default' if exp else 'nowhere') + (':emptytable' if c['fib'] == [] else '')] += 1
+            exc, dnote = downstream(p, exc)
             if exc or got != exp or any(o is not p for _, o in entries):
-                fails.add(f'FIBDemux(fib={fib}): packet of flow {p.flow_id} went to {got}{" raising " + exc if exc else ""}, the rule says {exp}' + fnote,
-                          'fibdemux-rule' + (':empty-table' if c['fib'] == [] else ''), c, lines[-6:])
+                fails.add(f'FIBDemux(fib={fib}): packet of flow {p.flow_id} went to {got}{" raising " + exc if exc else ""}, the rule says {exp}' + fnote + dnote,
+                          'fibdemux-rule' + (':empty-table' if c['fib'] == [] else '') + (':downstream-raise' if dnote else ''), c, lines[-6:])
         put_all(d, chk)
     elif k in ('simple', 'fair'):
         env = Environment()
@@ -576,6 +702,7 @@ def run_dispatch(c, fails, hist):
                 pt.out = dev(800 + j)
             hist[k + ':with-a-peer-switch'] += 1
         excs = {}
+        tstate['armed'] = True
         for p in pkts:
             try:
                 with quiet():
@@ -602,9 +729,10 @@ def run_dispatch(c, fails, hist):
                 continue
             hist[k + (':' + c['server'] if k == 'fair' else '') + ':' + ('one-output' if exp else 'nowhere')] += 1
             got = [dv for dv, _ in entries]
+            exc, dnote = downstream(p, exc)
             if exc or got != exp:
                 fails.add(f'{k} switch ({c.get("server", "FIFO")}): packet of flow {f} reached outputs {got}{" raising " + exc if exc else ""}, '
-                          f'the rule says {exp}' + fnote, 'switch-rule', c, lines[-6:])
+                          f'the rule says {exp}' + fnote + dnote, 'switch-rule' + (':downstream-raise' if dnote else ''), c, lines[-6:])
         stray = [(dv, o.packet_id) for dv, o in log if not any(o is p for p in pkts)]
         if stray:
             fails.add(f'switch emitted objects that were never put: {stray}', 'switch-stray', c, lines[-6:])
@@ -738,6 +866,8 @@ def run_dispatch(c, fails, hist):
         put_all(sp, chk)
         if any(d is not None for d in outs):
             port_stamp_check(c, k, outs, fails)
+    if throwers:
+        hist['downstream-raise:cases-in-which-a-device-raised' if tstate['fired'] else 'downstream-raise:cases-without-a-raise'] += 1
     return lines
 
 
@@ -1193,6 +1323,9 @@ def run(ctx):
     else:
         n = 6000 if ctx.quick else 80000
         cases = [gen_dispatch(rng, i) for i in range(n)] + gen_fattree_cases(rng, ctx) + gen_sims(rng, ctx)
+        # oracle-only batch (a stream of its own: the cases above are what they were): downstream devices that raise
+        rrng = random.Random(f'{PROP}-raise-{ctx.seed}')
+        cases += [gen_raise_case(rrng, i) for i in range(500 if ctx.quick else 6000)]
     fails = Failures()
     hist = collections.Counter()
     impl = {}
@@ -1200,7 +1333,7 @@ def run(ctx):
         impl[str(i)] = run_impl(c, fails, hist)
         hist['kind:' + c['kind']] += 1
     model = {}
-    todo = [(str(i), c) for i, c in enumerate(cases)]
+    todo = [(str(i), c) for i, c in enumerate(cases) if not c.get('raisers')]      # cases with failing devices are judged by the oracle only
     CH = 3000
     for s in range(0, len(todo), CH):
         text = '\n'.join(case_text(c, cid) for cid, c in todo[s:s + CH]) + '\n'
@@ -1237,6 +1370,11 @@ def run(ctx):
                 '(two or more deliveries for hubs/splitters), a fat-tree case with at least two table walks, or an end-to-end simulation',
         'samples': samples,
         'traces_validated_against_impl': len(todo) - len(disagreements),
+        'oracle_only_cases': {'downstream_devices_that_raise': len(cases) - len(todo),
+                              'kinds': dict(collections.Counter(c['kind'] for c in cases if c.get('raisers'))),
+                              'exceptions': dict(collections.Counter(e for c in cases for _, _, e in (c.get('raisers') or []))),
+                              'judged_by': 'the rule oracle alone (handed to exactly the output the rule names; hand-overs logged before the raise); '
+                                           'whether the exception reaches the caller is only counted (operation_histogram, downstream-raise:*)'},
         'observation_lines_compared': lines_cmp,
         'operation_histogram': dict(sorted(hist.items())),
         'fat_tree_k': sorted(set(c['k'] for c in cases if c['kind'] == 'fattree' and c.get('origin') == 'generate_flows')),
